@@ -283,11 +283,14 @@ def send_session(rng):
 
 def ns_session(rng):
     from boltons import socketutils as su
-    alphabet = [48, 49, 50, 57, 58, 44, 97, 10]     # digits, ':', ',', 'a', newline: payloads that look like framing
+    alphabet = [48, 49, 50, 57, 58, 44, 97, 10, 0, 128, 255]     # digits, ':', ',', 'a', newline (payloads that look like framing), NUL, high bytes
     # payload lengths around the points where the size prefix gains a digit; the reader's instance maxsize, setmaxsize()
     # and the per-call maxsize vary, always admitting the payload (what happens to an over-long message is not stated)
     payloads = [[rng.choice(alphabet) for _ in range(rng.choice([0, 1, 2, 3, 3, 9, 10, 11, 12, 99, 100, 101, 130]) if rng.random() < 0.5 else rng.randint(0, 3))]
                 for _ in range(rng.randint(1, 4))]
+    if rng.random() < 0.04:
+        # a message as long as the default maximum allows (its size prefix has the most digits it can have)
+        payloads = [[rng.choice(alphabet) for _ in range(rng.choice([su.DEFAULT_MAXSIZE, su.DEFAULT_MAXSIZE - 1]))]] + payloads[:1]
     w = FakeSock(b"", (), [rng.randint(1, 5) for _ in range(rng.randint(0, 6))])
     nsw = su.NetstringSocket(w, timeout=None)
     inst_max = rng.choice([None, None, 5, 9, 12, 64, 99, 1000])
@@ -309,8 +312,10 @@ def ns_session(rng):
     plan = []
     left = len(wire)
     style = rng.choice(["bytewise", "random", "whole"])
+    if len(wire) > 5000:
+        style = rng.choice(["whole", "big-chunks"])
     while left > 0:
-        k = 1 if style == "bytewise" else (left if style == "whole" else rng.randint(1, min(5, left)))
+        k = 1 if style == "bytewise" else (left if style == "whole" else rng.randint(1, min(4000, left)) if style == "big-chunks" else rng.randint(1, min(5, left)))
         plan.append(k)
         left -= k
     r = FakeSock(wire, plan)
